@@ -285,6 +285,8 @@ class SemExt(Extension):
             return None
         if name in ('PathQuantifier', 'Formula'):
             return SV('fclass', None, name)
+        if name == 'Parser':
+            return SV('type', None, 'Parser')
         if name == 'LNot':
             return SV('func', None, ('sem', 'LNot'))
         if name in TAG:
@@ -331,6 +333,8 @@ class SemExt(Extension):
             return SV('bool', is_tag(a.t, cls.x))
         if self.on(ex) and a.ty == 'F' and cls.ty == 'func' and cls.x[0] == 'builtin' and cls.x[1] in ('str', 'bool'):
             return SV('bool', z3.BoolVal(False))
+        if self.on(ex) and a.ty == 'text' and cls.ty == 'func' and cls.x[0] == 'builtin' and cls.x[1] == 'str':
+            return SV('bool', z3.BoolVal(True))
         return None
 
     def method(self, E, ex, base, attr, args, kwargs, path, node):
@@ -375,6 +379,8 @@ class SemExt(Extension):
     def param_value(self, E, ex, name, ty, heap, pc):
         if ty == 'Fb':
             return SV('F', hp.fresh(name, F))
+        if ty == 'text':
+            return SV('text', hp.fresh(name, H))
         return None
 
     def call_func(self, E, ex, fn, args, kwargs, path, node):
@@ -390,6 +396,12 @@ class SemExt(Extension):
         raise Unsupported('constructor operand of type %s' % a.ty)
 
     def call_value(self, E, ex, fn, args, kwargs, path, node):
+        if self.on(ex) and fn.ty == 'type' and fn.x == 'Parser' and not args:
+            return SV('parserobj')
+        if self.on(ex) and fn.ty == 'parserobj' and len(args) == 1 and args[0].ty == 'text':
+            from .formula import FML
+            r = E.call_contract(ex, 'Parser.__call__', [fn, SV('H', args[0].t)], kwargs, path, node)
+            return SV('F', FML(r.t))
         if not self.on(ex) or fn.ty not in ('fclass', 'fclassof'):
             return None
         if fn.ty == 'fclass' and fn.x == 'AtomicProposition' and len(args) == 1 and args[0].ty in ('H', 'str'):
@@ -672,6 +684,31 @@ def install_ltl(E):
                                                    z3.Exists([w], z3.And(isstart(w), state_of(cur(w)) == s, z3.Not(holds(g, w))))))),
             ('fresh', z3.And(c.res.t >= c.h0.alloc, c.res.t < c.h1.alloc)),
         ]
+
+    from .contracts_parser import lark_tok, lark_chr, lark_val
+    from .formula import FML
+
+    def tparsed(c):
+        return FML(lark_val(c.formula.t))
+
+    class _TextCtx(object):
+        """the object-formula clauses, read at the formula the parser returns"""
+        def __init__(self, c):
+            self.__dict__['c'] = c
+
+        def __getattr__(self, name):
+            if name == 'formula':
+                return SV('F', tparsed(self.__dict__['c']))
+            return getattr(self.__dict__['c'], name)
+
+    E.register(Contract(
+        'LTL.modelcheck(text)', 'ltl', [('kripke', 'kripke'), ('formula', 'text'), ('parser', 'none'), ('F', 'none')], ret='set',
+        requires=lambda c: req(_TextCtx(c)), ensures=lambda c: ens(_TextCtx(c)),
+        raises={'pkg.UnexpectedToken': lambda c: lark_tok(c.formula.t),
+                'pkg.UnexpectedCharacters': lambda c: lark_chr(c.formula.t),
+                'TypeError': lambda c: z3.And(z3.Not(lark_tok(c.formula.t)), z3.Not(lark_chr(c.formula.t)), z3.Not(is_tag(tparsed(c), 'A')))},
+        touches={'sets'}, hints=dict(common, path='modelcheck', qual='LTL.modelcheck'), owner='C02',
+        note='text formula, default parser, F=None: the statement of LTL.modelcheck about the formula object the parser returns'), FILE)
 
     E.register(Contract(
         'LTL.modelcheck', 'ltl', [('kripke', 'kripke'), ('formula', 'F'), ('parser', 'none'), ('F', 'none')], ret='set',
